@@ -4,20 +4,22 @@ from . import c11 as C11
 
 ID = 'C13'
 PKG = '.'
-HARNESS_FILES = C11.HARNESS_FILES
+HARNESS_FILES = C11.HARNESS_FILES + ['zz_verif_life.go']
 KERNEL_PKGS = ['.']
-ROOTS = [r'v3\.verifHarness_C11_dispatch', r'v3\.verifHarness_C13']
+ROOTS = [r'v3\.verifHarness_C11_dispatch', r'v3\.verifHarness_C13', r'v3\.verifHarness_C14_read_failure']
 ALLOW = C11.ALLOW
 INITS = C11.INITS
 OPTIONS = C11.OPTIONS
 NATIVE = False
-TAG_FILTER = ('C13/', 'C11/K1/')
+TAG_FILTER = ('C13/', 'C11/K1/', 'C14/L2/')
 ANCHOR_FILES = ['/repo/channel.go', '/repo/node.go']
 
 
 def tasks(tier):
     ts = [Task('verifHarness_C13_enqueue', [0]), Task('verifHarness_C13_enqueue', [1])]
     ts += [Task('verifHarness_C13_stall', [k]) for k in (0, 1, 2)]
+    ts += [Task('verifHarness_C14_read_failure', [busy]) for busy in (0, 1)]
+    ts += [Task('verifHarness_C13_failed_write', [cause, k]) for cause in (0, 1) for k in (1, 2, 3)]
     for kind in (0, 1, 2):
         for member in ((7, 5, 3) if tier == 'quick' else range(8)):
             for target in ((0,) if kind == 0 else (0, 3)):
@@ -26,7 +28,7 @@ def tasks(tier):
 
 
 def required_reach(tier):
-    return ['C13/K2', 'C11/K1', 'C13/S']
+    return ['C13/K2', 'C11/K1', 'C13/S', 'C13/L1', 'C14/L2']
 
 
 def bounds(tier):
@@ -35,12 +37,12 @@ def bounds(tier):
                         '(so any subset of channels is full): the loop consumes the request and returns to waiting; every non-full '
                         'addressed channel still receives the item',
             'stall': 'channel A full, channel B at an arbitrary non-full level; two requests (to A then to B; except-B then except-A; two write-all): both consumed, A discards, B served',
-            'second_sentence': 'NOT DECIDED: what Channel.run does after runWriter returns with an error involves three goroutines '
-                               '(reader blocked in the transport, writer gone, run selecting on readerDone/ctx) and a quiescence argument'}
+            'second_sentence': 'ONE SCHEDULE (goroutines run round-robin until each blocks, to quiescence): Channel.run with its reader blocked in the '
+                               'transport; the k-th write (k = 1..3) fails with a transport error, or an item with an id outside the dialect '
+                               'cannot be encoded; then a further valid write: the channel was closed and reported once, or still delivers'}
 
 
-OUTSIDE = ['the failing-write sentence of the property (needs a scheduler; reading the code suggests the channel stays open and mute, '
-           'which this technique cannot demonstrate)', 'transport Write blocking inside runWriter (a blocked goroutine is invisible to other '
+OUTSIDE = ['other interleavings of the three goroutines of a channel than the run-until-blocked round-robin one', 'transport Write blocking inside runWriter (a blocked goroutine is invisible to other '
            'goroutines only through the bounded queue, which is what K2 establishes)']
 STUBS = C11.STUBS
 ASSUMPTIONS = C11.ASSUMPTIONS
